@@ -64,6 +64,8 @@ func init() {
 		b := ""
 		b += "/-- HNSWIndex.Add: the statements that register the node in idx.nodes or link it, in source order -/\n"
 		b += "def addOrder : List String := " + LeanStrList(order) + "\n\n"
+		b += "/-- HNSWIndex.Add: the conditions under which flushLocked runs first -/\n"
+		b += "def addFlushConds : List String := " + LeanStrList(p.IfConds(add, "deletedNodes")) + "\n\n"
 		b += "/-- HNSWIndex.insertNode: how the per-layer neighbour cap M is computed and used -/\n"
 		b += "def capStmts : List String := " + LeanStrList(capStmts) + "\n\n"
 		b += "/-- HNSWIndex.searchLayer: every `if` condition, in source order -/\n"
